@@ -2,6 +2,7 @@ import Ivg.Lemmas.RendererVM
 import Ivg.Lemmas.ScaleQ
 import Ivg.Gen.Tie.RendererFields
 import Ivg.Gen.Tie.VecRasterizerFields
+import Ivg.Gen.Tie.Code.Transform
 import Ivg.Obligations
 /-!
 # C16 — invariances of rendering (the repository's part)
@@ -301,4 +302,16 @@ end Ivg.Props.C16
   Ivg.Props.C16.run_scaled, Ivg.Props.C16.pow2_scaling_exact, Ivg.Props.C16.pow2_scaling_exact_pow2,
   Ivg.Props.C16.pow2_scaling_exact_flat,
   Ivg.Lemmas.RendererVM.arcF32_rectIndep, Ivg.Lemmas.RendererVM.arcF32_pure,
-  Ivg.Gen.Tie.vecRasterizer_fields_tie, Ivg.Gen.Tie.renderer_fields_tie]
+  Ivg.Gen.Tie.vecRasterizer_fields_tie, Ivg.Gen.Tie.renderer_fields_tie,
+  -- regenerated code (translator, Ivg/Gen/Code) = model, for all inputs: Transform
+  Ivg.Gen.Tie.rectangle_Dx_code_tie,
+  Ivg.Gen.Tie.rectangle_Dy_code_tie,
+  Ivg.Gen.Tie.renderer_absX_code_tie,
+  Ivg.Gen.Tie.renderer_absY_code_tie,
+  Ivg.Gen.Tie.renderer_relX_code_tie,
+  Ivg.Gen.Tie.renderer_relY_code_tie,
+  Ivg.Gen.Tie.renderer_unabsX_code_tie,
+  Ivg.Gen.Tie.renderer_unabsY_code_tie,
+  Ivg.Gen.Tie.renderer_absVec2_code_tie,
+  Ivg.Gen.Tie.renderer_recalcTransform_code_tie,
+  Ivg.Gen.Tie.renderer_recalcTransform_code_tie_frame]
